@@ -81,3 +81,20 @@ prop("C05", [
     assumptions=COMMON_ASSUME + ["ResponseStream << (u)int8_t is outside the value alphabet (it is written as a character)"],
     bounds={"quick": "5 codes, body lengths 0..600,1000..1100,2000..2100, stream programs <= 2 ops",
             "thorough": "64 codes, body lengths 0..2200, stream programs <= 3 ops (until the deadline)"})
+
+prop("C02", [
+    {"name": "c02_roundtrip", "sources": ["c02_roundtrip.cc"], "flavour": "asan",
+     "args": {"quick": ["--Kops=2", "--timeout-ms=30000", "--deadline-s=170"],
+              "thorough": ["--thorough=1", "--Kops=3", "--timeout-ms=120000", "--deadline-s=1500"]}},
+],
+    rule="requests: one case = one RequestBuilder spec (5 methods x 5 resource forms x 4 query maps x typed-header "
+         "subsets (<=2 of 7) x 0..3 cookies x bodies incl. every single byte value, CR/CRLF endings, NUL, 4 KiB), "
+         "serialised by the real writeRequest and delivered over a socketpair to a real Http::Handler; the Request "
+         "seen in onRequest must equal the spec field by field (headers as sorted multiset, Cookie pairs as a set); "
+         "responses: the C05 space of ResponseWriter::send (codes x header sets x cookie sets x body lengths) and "
+         "ResponseStream programs, bytes parsed by the real ResponseParser one-shot and byte by byte, Response must "
+         "equal the spec; evaluations = messages; non-trivial = distinct wire images",
+    assumptions=COMMON_ASSUME + ["Accept (empty writer) and typed Allow (no-op reader) are outside the round-trip alphabet; "
+                                 "their raw header text is still compared"],
+    bounds={"quick": "thinned request product, 5 codes, stream programs <= 2 ops",
+            "thorough": "full request product, 64 codes, stream programs <= 3 ops (until the deadline)"})
